@@ -1,4 +1,4 @@
-"""Bounded check of the ASSUMED contracts of gnpy.core.utils.order_slots / restore_order (C14)."""
+"""Bounded check of the general permutation contract of gnpy.core.utils.order_slots / restore_order (C14); the one- and two-entry cases are proved (contracts/c_spectrum.py)."""
 import itertools
 import time
 from bounded.common import args, finish
@@ -30,5 +30,5 @@ for k in (1, 2, 3):
                 ok = False          # must not modify its argument
             if not ok:
                 wit.append({'key': f'order_slots:{ns}:{ms}', 'N': N, 'M': M, 'order': order})
-finish('order_slots/restore_order assumed contract', 'bounded', 'gnpy.core.utils.order_slots, restore_order',
+finish('order_slots/restore_order general permutation contract (1-2 entries are proved)', 'bounded', 'gnpy.core.utils.order_slots, restore_order',
        'all requests with 1..3 (N, M) entries, N in {None,-8,0,8}, M in {None,1,4,8}', cases, wit, t0=t0)
